@@ -1,9 +1,37 @@
 import Driver.Util
+import MpcVerif.Model.Pool
 
 namespace Drv.C17
+open Mpc.Pool
 
-/-- Line-protocol handler of property C17 (stub). -/
-def handle (_args : List String) : String := "bad-op"
+/-- `G:t:h:s:p:d | V:t:h:d | R:t:h | Q:t:h | A:t | C:t` -/
+def parseEv (s : String) : Option Ev :=
+  match s.splitOn ":" with
+  | ["G", t, h, x, p, d] => do some (.garble (← t.toNat?) (← h.toNat?) (← x.toNat?) (← p.toNat?) (← d.toNat?))
+  | ["V", t, h, d] => do some (.verify (← t.toNat?) (← h.toNat?) (← d.toNat?))
+  | ["R", t, h] => do some (.release (← t.toNat?) (← h.toNat?))
+  | ["Q", t, h] => do some (.release2 (← t.toNat?) (← h.toNat?))
+  | ["A", t] => do some (.abort (← t.toNat?))
+  | ["C", t] => do some (.compute (← t.toNat?))
+  | _ => none
+
+/-- `c17 trace <event> <event> ...`: is the logged sequence of pool events of a
+real run a run of the model (each call executed as its block of atomic model
+steps at the position of its log entry)?  Prints the verdict and the summary
+statistics of the replay. -/
+def handle (args : List String) : String :=
+  match args with
+  | "trace" :: evs =>
+    match evs.mapM parseEv with
+    | none => "bad-op"
+    | some evs =>
+      match replay { σ := init traceParams } 0 evs with
+      | .error m => m
+      | .ok r =>
+        s!"ok pools={r.σ.nPools} scratch={r.smap.length} handles={r.handles} reused={r.reused} " ++
+        s!"maxlive={r.maxLive} live={r.live} releases={r.releases} noops={r.noops} aborts={r.aborts} " ++
+        s!"verifies={r.verifies}"
+  | _ => "bad-op"
 
 end Drv.C17
 
